@@ -11,10 +11,12 @@ package main
 // No ops.txt: only stats.json.
 
 import (
+	"bytes"
 	"context"
 	"flag"
 	"fmt"
 	"math/rand"
+	"os/exec"
 	"runtime"
 	"strings"
 	"sync/atomic"
@@ -23,7 +25,10 @@ import (
 	"github.com/reugn/go-quartz/quartz"
 )
 
-func init() { commands["lifecycle"] = lifecycleRun }
+func init() {
+	commands["lifecycle"] = lifecycleRun
+	commands["lifecycle-child"] = lifecycleChild
+}
 
 const lcQuartzPkg = "github.com/reugn/go-quartz/quartz."
 
@@ -376,6 +381,134 @@ func (e *lcEnv) waitExpires(mode string) {
 	e.samples = append(e.samples, map[string]any{"scenario": "wait-expires", "mode": mode, "wait_took_ms": took.Milliseconds(), "ctx_expired": expired})
 }
 
+// expiredWaits: Wait creates no goroutine: the number of goroutines of the process does not depend on how many
+// Waits have expired on a running scheduler (100 vs 1000), and nothing is left after Stop; Wait.
+func (e *lcEnv) expiredWaits(mode string) {
+	s := lcNew(mode)
+	tick := &lcJob{name: "tick", release: make(chan struct{})}
+	lcSchedule(s, tick, 10*time.Millisecond)
+	ctx, cancel := context.WithCancel(context.Background())
+	defer cancel()
+	s.Start(ctx)
+	expired := func(n int) {
+		for i := 0; i < n; i++ {
+			var wctx context.Context
+			var wc context.CancelFunc
+			if i%10 == 0 {
+				wctx, wc = context.WithTimeout(context.Background(), 50*time.Microsecond)
+			} else {
+				wctx, wc = context.WithDeadline(context.Background(), time.Now().Add(-time.Second))
+			}
+			s.Wait(wctx)
+			wc()
+		}
+	}
+	settle := func() int {
+		n := runtime.NumGoroutine()
+		for i := 0; i < 20; i++ { // the minimum over a short window: jobs of the unbounded mode come and go
+			time.Sleep(500 * time.Microsecond)
+			if m := runtime.NumGoroutine(); m < n {
+				n = m
+			}
+		}
+		return n
+	}
+	expired(100)
+	g100 := settle()
+	expired(900)
+	g1000 := settle()
+	e.check(g1000 <= g100+20, "%s: the number of goroutines grows with the number of expired Waits: %d after 100, %d after 1000 (Wait leaves a goroutine behind)", mode, g100, g1000)
+	e.check(s.IsStarted(), "%s: IsStarted is false after 1000 expired Waits on a running scheduler", mode)
+	e.check(lcFires(tick), "%s: after 1000 expired Waits a job with a 10 ms trigger does not fire within 2 s", mode)
+	s.Stop()
+	ret, took := lcWait(s, 5*time.Second)
+	e.check(ret, "%s: Wait did not return within 5 s after 1000 expired Waits and Stop (took %v)", mode, took)
+	e.lcNoLeak(mode + " 1000 expired Waits; Stop")
+	e.shapes["expired-waits:"+mode] = true
+	e.count("scenario", "expired-waits")
+	e.samples = append(e.samples, map[string]any{"scenario": "expired-waits", "mode": mode, "goroutines_after_100": g100, "goroutines_after_1000": g1000})
+}
+
+// waitThenRestart runs `Start; Wait(expiring ctx)×64; Stop; Start; Stop; Wait` ×iters in a CHILD process: a runtime panic
+// ("WaitGroup is reused before previous Wait has returned") kills the process and cannot be recovered in-process.
+func (e *lcEnv) waitThenRestart(iters int) {
+	cctx, cancel := context.WithTimeout(context.Background(), 120*time.Second)
+	defer cancel()
+	cmd := exec.CommandContext(cctx, selfExe(), "lifecycle-child", "--iters", fmt.Sprint(iters), "--waits", "64")
+	var out bytes.Buffer
+	cmd.Stdout, cmd.Stderr = &out, &out
+	err := cmd.Run()
+	text := out.String()
+	tail := text
+	if len(tail) > 700 {
+		tail = tail[:400] + " … " + tail[len(tail)-250:]
+	}
+	tail = strings.Join(strings.Fields(tail), " ")
+	e.evals++
+	if err != nil {
+		e.violation("process died during %d×(Start; Wait(expiring ctx)×64; Stop; Start; Stop; Wait) in the three modes: %v: %s", iters, err, tail)
+	}
+	for _, line := range strings.Split(text, "\n") {
+		if strings.HasPrefix(line, "V ") {
+			e.evals++
+			e.violation("%s", strings.TrimPrefix(line, "V "))
+		}
+		if strings.HasPrefix(line, "checks ") {
+			var n int
+			fmt.Sscanf(line, "checks %d", &n)
+			e.evals += n
+		}
+	}
+	e.shapes["wait-then-restart"] = true
+	e.count("scenario", "wait-then-restart")
+	e.count("wait_then_restart_child", fmt.Sprintf("exit-ok=%v", err == nil))
+}
+
+func lifecycleChild(args []string) int {
+	fs := flag.NewFlagSet("lifecycle-child", flag.ExitOnError)
+	iters := fs.Int("iters", 50, "")
+	waits := fs.Int("waits", 64, "")
+	fs.Parse(args)
+	checks := 0
+	for _, mode := range lcModes {
+		s := lcNew(mode)
+		tick := &lcJob{name: "tick", release: make(chan struct{})}
+		lcSchedule(s, tick, 5*time.Millisecond)
+		for i := 0; i < *iters; i++ {
+			s.Start(context.Background())
+			for k := 0; k < *waits; k++ {
+				wctx, wc := context.WithTimeout(context.Background(), 20*time.Microsecond)
+				s.Wait(wctx)
+				wc()
+			}
+			s.Stop()
+			s.Start(context.Background())
+			checks++
+			if !s.IsStarted() {
+				fmt.Printf("V %s: Start; Wait(expiring ctx)×%d; Stop; Start: IsStarted is false after the second Start (iteration %d)\n", mode, *waits, i)
+			}
+			if i%10 == 0 {
+				checks++
+				if !lcFires(tick) {
+					fmt.Printf("V %s: Start; Wait(expiring ctx)×%d; Stop; Start: a job with a 5 ms trigger does not fire within 2 s (iteration %d)\n", mode, *waits, i)
+				}
+			}
+			s.Stop()
+			checks++
+			if ret, took := lcWait(s, 5*time.Second); !ret {
+				fmt.Printf("V %s: Start; Wait(expiring ctx)×%d; Stop; Start; Stop; Wait: the final Wait did not return within 5 s (took %v, iteration %d)\n", mode, *waits, took, i)
+			}
+		}
+	}
+	var left []string
+	checks++
+	if !lcPoll(5*time.Second, func() bool { left = lcQuartzGoroutines(); return len(left) == 0 }) {
+		fmt.Printf("V goroutine leak: after %d×(Start; Wait(expiring ctx)×%d; Stop; Start; Stop; Wait) %d goroutine(s) of the scheduler are still alive: %v\n", *iters, *waits, len(left), left)
+	}
+	fmt.Printf("checks %d\n", checks)
+	return 0
+}
+
 // ---- random call sequences against the call-order specification -------------------------------------------
 
 func (e *lcEnv) randomScript(r *rand.Rand, mode string, length int) string {
@@ -453,6 +586,7 @@ func lifecycleRun(args []string) int {
 	n := fs.Int("n", 60, "random call sequences")
 	reps := fs.Int("reps", 300, "iterations of Start;Stop;Start (Start;cancel;Start gets 2/3 of it)")
 	maxLen := fs.Int("len", 14, "")
+	childIters := fs.Int("child-iters", 50, "iterations of Start; Wait(expiring)×64; Stop; Start; Stop; Wait per mode in the child process")
 	out := fs.String("out", "", "")
 	fs.Parse(args)
 	r := rand.New(rand.NewSource(*seed))
@@ -464,7 +598,9 @@ func lifecycleRun(args []string) int {
 		e.restart(mode, "cancel", *reps*2/3)
 		e.shutdown(mode)
 		e.waitExpires(mode)
+		e.expiredWaits(mode)
 	}
+	e.waitThenRestart(*childIters)
 	seen := map[string]bool{}
 	for k := 0; k < *n; k++ {
 		mode := lcModes[r.Intn(len(lcModes))]
